@@ -7,12 +7,14 @@ package main
 import (
 	"context"
 	"encoding/json"
+	"errors"
 	"fmt"
 	"runtime"
 	"strconv"
 	"strings"
 	"sync"
 	"time"
+	"tunnox-core/internal/core/storage/types"
 
 	"tunnox-core/internal/core/storage/hybrid"
 	"tunnox-core/verifharness/doubles"
@@ -35,7 +37,10 @@ type behaviour struct {
 	Procs  int     `json:"procs,omitempty"`
 	Ops    int     `json:"ops,omitempty"`
 	Seed   int     `json:"seed,omitempty"`
-	Legacy bool    `json:"legacy"` // generated from the model of the code before the per-key lock repair
+	Legacy bool    `json:"legacy"`
+	Op     string  `json:"op,omitempty"`      // fault mode: Set | Del | App
+	FailAt string  `json:"fail_at,omitempty"` // fault mode: "<store>.<Op>" whose first call fails once
+	Cached bool    `json:"cached,omitempty"`  // fault mode: the old value is already in the front cache // generated from the model of the code before the per-key lock repair
 	Steps  []hstep `json:"steps"`
 }
 
@@ -107,6 +112,9 @@ func (r *rig) doCall(op string, id int) callRes {
 	case "Get":
 		v, err := r.h.Get(r.key)
 		if err != nil {
+			if !errors.Is(err, types.ErrKeyNotFound) {
+				return callRes{ok: true, t: "err", v: 0, err: err.Error()} // a failed read answers nothing
+			}
 			return callRes{ok: true, t: "nf", v: 0, err: err.Error()}
 		}
 		n, ok := parseID(v)
@@ -129,6 +137,9 @@ func (r *rig) doCall(op string, id int) callRes {
 	case "GetL":
 		l, err := r.h.GetList(r.key)
 		out := []any{}
+		if err != nil && !errors.Is(err, types.ErrKeyNotFound) {
+			return callRes{ok: true, t: "err", v: 0, err: err.Error()}
+		}
 		if err == nil {
 			for _, x := range l {
 				if n, ok := parseID(x); ok {
@@ -152,8 +163,10 @@ func gateFor(r *rig, a string) string {
 	switch a {
 	case "FrontGet":
 		return r.front.Name + ".Get"
-	case "FrontSet":
+	case "FrontSet", "FrontSetFail":
 		return r.front.Name + ".Set"
+	case "FrontInval":
+		return r.front.Name + ".Delete"
 	case "FrontDel":
 		return r.front.Name + ".Delete"
 	case "BackGet":
@@ -173,6 +186,12 @@ func drive(env *fw.Env, b fw.Behaviour) *fw.Trace {
 	}
 	if beh.Mode == "tier" {
 		return driveTier(beh)
+	}
+	if beh.Mode == "fault" {
+		return driveFault(beh)
+	}
+	if beh.Mode == "xnode" {
+		return driveXNode(env, beh)
 	}
 	if beh.Free {
 		return driveFree(env, beh)
@@ -263,6 +282,16 @@ func drive(env *fw.Env, b fw.Behaviour) *fw.Trace {
 		}
 		if st.W {
 			r.s.Watchdog = 3 * time.Millisecond
+		}
+		if st.A == "FrontSetFail" {
+			armed := true
+			r.front.Fault = func(c *doubles.Call) error {
+				if armed && c.Op == "Set" {
+					armed = false
+					return doubles.ErrInjected
+				}
+				return nil
+			}
 		}
 		ns, _ := r.s.Step(name)
 		r.s.Watchdog = wd
@@ -389,6 +418,161 @@ func driveFree(env *fw.Env, beh behaviour) *fw.Trace {
 	return t
 }
 
+// driveFault: clause "single tier failures". Sequential: an old value exists (in the back tier, and
+// in the front cache too when Cached); one facade write is issued while exactly one tier operation
+// fails once; then the key is read. An acknowledged write (returned nil) must be what later reads
+// see; a refused write (error) carries no demand.
+func driveFault(beh behaviour) *fw.Trace {
+	r := newRig(beh.Cat, beh.Shared, true)
+	defer r.cancel()
+	var init any = "v0"
+	if beh.Op == "App" {
+		init = []any{"e0"}
+	}
+	if r.hasBack {
+		r.pers.Poke(r.key, init, 0)
+		if beh.Cached {
+			r.front.Poke(r.key, init, time.Hour)
+		}
+	} else {
+		r.front.Poke(r.key, init, time.Hour)
+	}
+	failed := false
+	fault := func(c *doubles.Call) error {
+		if !failed && c.Store+"."+c.Op == beh.FailAt {
+			failed = true
+			return doubles.ErrInjected
+		}
+		return nil
+	}
+	for _, st := range []*doubles.Store{r.cache, r.shared, r.pers} {
+		if st != nil {
+			st.Fault = fault
+		}
+	}
+	mode := "kv"
+	if beh.Op == "App" {
+		mode = "list"
+	}
+	t := &fw.Trace{Status: fw.Realised}
+	t.Events = append(t.Events, fw.Event{"ev": "Cfg", "cat": beh.Cat, "mode": mode, "scope": "fault=" + beh.FailAt + ":" + beh.Op})
+	t.Events = append(t.Events, fw.Event{"ev": "Call", "p": "p1", "op": beh.Op, "id": 1})
+	res := r.doCall(beh.Op, 1)
+	if !failed {
+		return &fw.Trace{Status: fw.Unrealisable, Note: "the write does not perform " + beh.FailAt}
+	}
+	t.Events = append(t.Events, fw.Event{"ev": "Ret", "p": "p1", "op": beh.Op, "id": 1, "ok": res.ok, "t": res.t, "v": res.v, "probe": false, "err": res.err, "fault_hit": failed})
+	settle(r)
+	probeOp := "Get"
+	if mode == "list" {
+		probeOp = "GetL"
+	}
+	for i := 0; i < 2; i++ { // twice: the first read may itself refill the cache
+		t.Events = append(t.Events, fw.Event{"ev": "Call", "p": "probe", "op": probeOp, "id": 0})
+		pr := r.doCall(probeOp, 0)
+		t.Events = append(t.Events, fw.Event{"ev": "Ret", "p": "probe", "op": probeOp, "id": 0, "ok": true, "t": pr.t, "v": pr.v, "probe": true, "err": pr.err})
+		settle(r)
+	}
+	return t
+}
+
+// driveXNode: two facade instances (nodes) with their own local cache over one shared cache and one
+// persistent tier. For the two shared categories: what node A wrote must be what node B reads
+// ("shared cross-node keys are visible to every node"), and appends issued from both nodes at the
+// same time must all take effect.
+func driveXNode(env *fw.Env, beh behaviour) *fw.Trace {
+	a := newRig(beh.Cat, true, true)
+	defer a.cancel()
+	b := newRig(beh.Cat, true, true)
+	defer b.cancel()
+	// node B shares A's shared cache and persistent tier, keeps its own local cache
+	cfg := hybrid.DefaultConfig()
+	cfg.EnablePersistent = true
+	ctx, cancel := context.WithCancel(context.Background())
+	defer cancel()
+	b.shared, b.pers = a.shared, a.pers
+	b.h = hybrid.NewWithSharedCache(ctx, b.cache, a.shared, doubles.Pers{St: a.pers}, cfg)
+	b.front = a.shared
+	mode := "kv"
+	if beh.Op == "App" {
+		mode = "list"
+	}
+	t := &fw.Trace{Status: fw.Realised}
+	t.Events = append(t.Events, fw.Event{"ev": "Cfg", "cat": beh.Cat, "mode": mode, "scope": "xnode"})
+	if mode == "kv" {
+		a.pers.Poke(a.key, "v0", 0)
+		if a.hasBack {
+			// both nodes have read the old value once (their caches are warm)
+			a.doCall("Get", 0)
+			b.doCall("Get", 0)
+			settle(a)
+		} else {
+			a.front.Poke(a.key, "v0", time.Hour)
+		}
+		seq := []struct {
+			n  *rig
+			p  string
+			op string
+			id int
+		}{{a, "a", "Set", 1}, {b, "b", "Get", 0}, {b, "b", "Set", 2}, {a, "a", "Get", 0}, {a, "a", "Del", 3}, {b, "b", "Get", 0}}
+		for _, s := range seq {
+			t.Events = append(t.Events, fw.Event{"ev": "Call", "p": s.p, "op": s.op, "id": s.id})
+			res := s.n.doCall(s.op, s.id)
+			t.Events = append(t.Events, fw.Event{"ev": "Ret", "p": s.p, "op": s.op, "id": s.id, "ok": res.ok, "t": res.t, "v": res.v, "probe": s.op == "Get", "err": res.err})
+			settle(a)
+		}
+		return t
+	}
+	// list mode: appends from both nodes released together, repeated; a probe on each node at the end
+	if a.hasBack {
+		a.pers.Poke(a.key, []any{"e0"}, 0)
+	} else {
+		a.front.Poke(a.key, []any{"e0"}, time.Hour)
+	}
+	rnd := fw.NewRand(env.Seed*977 + int64(beh.Seed))
+	var rmu sync.Mutex
+	delay := func(name string, g sched.GateInfo) {
+		rmu.Lock()
+		k := rnd.Intn(8)
+		rmu.Unlock()
+		if k < 5 {
+			runtime.Gosched()
+		} else {
+			time.Sleep(time.Duration(k*15) * time.Microsecond)
+		}
+	}
+	a.s.FreeDelay, b.s.FreeDelay = delay, delay
+	var mu sync.Mutex
+	var wg sync.WaitGroup
+	nid := 0
+	start := make(chan struct{})
+	for i, n := range []*rig{a, b, a, b} {
+		wg.Add(1)
+		go func(i int, n *rig) {
+			defer wg.Done()
+			<-start
+			mu.Lock()
+			nid++
+			id := nid
+			t.Events = append(t.Events, fw.Event{"ev": "Call", "p": fmt.Sprintf("n%d", i), "op": "App", "id": id})
+			mu.Unlock()
+			res := n.doCall("App", id)
+			mu.Lock()
+			t.Events = append(t.Events, fw.Event{"ev": "Ret", "p": fmt.Sprintf("n%d", i), "op": "App", "id": id, "ok": res.ok, "t": res.t, "v": res.v, "probe": false, "err": res.err})
+			mu.Unlock()
+		}(i, n)
+	}
+	close(start)
+	wg.Wait()
+	settle(a)
+	for _, n := range []*rig{a, b} {
+		t.Events = append(t.Events, fw.Event{"ev": "Call", "p": "probe", "op": "GetL", "id": 0})
+		pr := n.doCall("GetL", 0)
+		t.Events = append(t.Events, fw.Event{"ev": "Ret", "p": "probe", "op": "GetL", "id": 0, "ok": true, "t": pr.t, "v": pr.v, "probe": true, "err": pr.err})
+	}
+	return t
+}
+
 // settle waits until no tier operation has been logged for a few milliseconds (pending
 // asynchronous write-backs have landed).
 func settle(r *rig) {
@@ -497,7 +681,8 @@ func main() {
 			sy = "TRUE"
 		}
 		return fw.TLCJob{Name: name, Module: "Hybrid", Cfg: "Hybrid_kv.cfg", Workers: 8,
-			Consts: map[string]string{"MAXOPS": strconv.Itoa(maxOps), "HASBACK": hb, "MODE": mode, "SYNC": sy, "EMIT": em, "INVS": invs}}
+			Consts: map[string]string{"MAXOPS": strconv.Itoa(maxOps), "HASBACK": hb, "MODE": mode, "SYNC": sy, "EMIT": em, "INVS": invs,
+				"FAULTPROC": "none", "INVAL": "TRUE"}}
 	}
 	fw.Main(&fw.Property{
 		ID:        "C14",
@@ -509,6 +694,10 @@ func main() {
 				for _, hb := range []bool{true, false} {
 					jobs = append(jobs, cfgJob(fmt.Sprintf("mc:%s:back=%v", mode, hb), mode, hb, n, false, true, "NoStaleRead NoLostUpdate"))
 				}
+				// single tier failure: the cache write of a persisted Set / list write fails once
+				j := cfgJob(fmt.Sprintf("mc:%s:fault", mode), mode, true, n, false, true, "NoStaleRead NoLostUpdate")
+				j.Consts["FAULTPROC"] = "p1"
+				jobs = append(jobs, j)
 			}
 			return jobs
 		},
@@ -525,6 +714,17 @@ func main() {
 					// repaired code (they block on the lock), realisable again if the lock is lost
 					jobs = append(jobs, cfgJob(fmt.Sprintf("legacy:%s:back=%v", mode, hb), mode, hb, 1+btoi(mode == "kv"), true, false, ""))
 				}
+				nf := 2
+				if mode == "list" {
+					nf = 1
+				}
+				j := cfgJob(fmt.Sprintf("gen:%s:fault:back=true", mode), mode, true, nf, true, true, "")
+				j.Consts["FAULTPROC"] = "p1"
+				jobs = append(jobs, j)
+				// the code before the cache-invalidation repair: acknowledged Set, older value stays cached
+				jl := cfgJob(fmt.Sprintf("legacy:%s:fault:back=true", mode), mode, true, nf, true, true, "")
+				jl.Consts["FAULTPROC"], jl.Consts["INVAL"] = "p1", "FALSE"
+				jobs = append(jobs, jl)
 			}
 			return jobs
 		},
@@ -537,7 +737,7 @@ func main() {
 			if strings.Contains(src, ":list:") {
 				mode = "list"
 			}
-			legacy := strings.HasPrefix(src, "legacy:")
+			legacy := strings.HasPrefix(src, "legacy:") && !strings.Contains(src, ":fault") // fault-legacy behaviours follow the repaired lock structure
 			var out []json.RawMessage
 			if strings.Contains(src, "back=true") {
 				out = append(out, fw.MustJSON(behaviour{Cat: "persistent", Mode: mode, Shared: false, Legacy: legacy, Steps: steps}))
@@ -553,6 +753,35 @@ func main() {
 			nfree := 25
 			if env.Tier == "thorough" {
 				nfree = 400
+			}
+			// single tier failures: every tier operation of a facade write fails once
+			for _, c := range []string{"runtime", "persistent", "shared", "sharedPersistent"} {
+				front := "cache"
+				if c == "shared" || c == "sharedPersistent" {
+					front = "shared"
+				}
+				for _, op := range []string{"Set", "Del", "App"} {
+					fails := []string{front + ".Set", front + ".Delete", front + ".Get"}
+					if c == "persistent" || c == "sharedPersistent" {
+						fails = append(fails, "pers.Set", "pers.Delete", "pers.Get")
+					}
+					for _, f := range fails {
+						for _, cached := range []bool{false, true} {
+							out = append(out, fw.MustJSON(behaviour{Cat: c, Mode: "fault", Shared: true, Op: op, FailAt: f, Cached: cached}))
+						}
+					}
+				}
+			}
+			// two nodes over one shared cache + persistent tier
+			nx := 10
+			if env.Tier == "thorough" {
+				nx = 150
+			}
+			for _, c := range []string{"shared", "sharedPersistent"} {
+				out = append(out, fw.MustJSON(behaviour{Cat: c, Mode: "xnode", Op: "Set"}))
+				for i := 0; i < nx; i++ {
+					out = append(out, fw.MustJSON(behaviour{Cat: c, Mode: "xnode", Op: "App", Seed: i}))
+				}
 			}
 			for _, c := range []string{"runtime", "persistent", "shared", "sharedPersistent"} {
 				out = append(out, fw.MustJSON(behaviour{Cat: c, Mode: "tier"}))
